@@ -470,6 +470,13 @@ class _Callable(object):
         self.fun, self.domain, self.arg, self.use_out = (fun, space, arg,
                                                          use_out)
 
+    def call_out(self, x, out):
+        """fun(x, arg, out) with a caller-supplied out (possibly x)."""
+        res = self.fun(x, self.arg, out)
+        if res is not out:
+            raise HarnessError('projection did not return out')
+        return out
+
     def __call__(self, x):
         if self.use_out:
             out = self.domain.element()
@@ -1315,10 +1322,27 @@ def _weighting(draw, shape, kinds):
             'data': np.asarray(vals).reshape(shape).tolist()}
 
 
+LEAF_KINDS = ('rn', 'rn_const', 'rn_array', 'discr', 'rn32', 'discr32')
+# weights of the kinds in the random part (float32 about one case in six)
+LEAF_KINDS_RANDOM = ('rn', 'rn_const', 'rn_array', 'discr') * 3 + \
+    ('rn32', 'rn32', 'discr32')
+
+
 @st.composite
 def leaf_spaces(draw, sizes=('tiny', 'small', 'medium'),
-                kinds=('rn', 'rn_const', 'rn_array', 'discr')):
+                kinds=LEAF_KINDS_RANDOM, dtype=None):
+    """Leaf space descriptor.  ``kinds``: rn / rn_const / rn_array / discr
+    (float64 unless ``dtype`` says otherwise), rn32 / discr32 (float32,
+    weighting none or const).  ``dtype`` forces the dtype (all leaves of a
+    product space share one)."""
     kind = draw(st.sampled_from(list(kinds)))
+    if dtype == 'float64' and kind.endswith('32'):
+        kind = {'rn32': 'rn', 'discr32': 'discr'}[kind]
+    dt = dtype or ('float32' if kind.endswith('32') else 'float64')
+    if kind == 'rn32':
+        kind = draw(st.sampled_from(['rn', 'rn_const']))
+    if kind == 'discr32':
+        kind = 'discr'
     size = draw(st.sampled_from(list(sizes)))
     if kind == 'discr':
         pool = {'tiny': [s for s in DISCR_SHAPES if np.prod(s) <= 4],
@@ -1341,14 +1365,21 @@ def leaf_spaces(draw, sizes=('tiny', 'small', 'medium'),
             nob = [[draw(st.booleans()), draw(st.booleans())]
                    for _ in shape]
         return {'kind': 'discr', 'min': mins, 'max': maxs,
-                'shape': list(shape), 'dtype': 'float64', 'exponent': 2.0,
+                'shape': list(shape), 'dtype': dt, 'exponent': 2.0,
                 'nodes_on_bdry': nob, 'weighting': None}
     pool = {'tiny': LEAF_SHAPES_TINY, 'small': LEAF_SHAPES_SMALL,
             'medium': LEAF_SHAPES_MED}[size]
     shape = draw(st.sampled_from(pool))
     wk = {'rn': 'none', 'rn_const': 'const', 'rn_array': 'array'}[kind]
-    return {'kind': 'tensor', 'shape': list(shape), 'dtype': 'float64',
+    return {'kind': 'tensor', 'shape': list(shape), 'dtype': dt,
             'weighting': draw(_weighting(shape, (wk,))), 'exponent': 2.0}
+
+
+def dtype_of(sd):
+    if sd['kind'] == 'pspace':
+        return dtype_of(sd['base'] if sd.get('power') is not None
+                        else sd['parts'][0])
+    return sd.get('dtype', 'float64')
 
 
 @st.composite
@@ -1365,8 +1396,8 @@ def _pweight(draw, n, kinds=('none', 'none', 'const', 'array')):
 
 
 @st.composite
-def power_spaces(draw, sizes=('tiny', 'small')):
-    base = draw(leaf_spaces(sizes=sizes))
+def power_spaces(draw, sizes=('tiny', 'small'), dtype=None):
+    base = draw(leaf_spaces(sizes=sizes, dtype=dtype))
     bsz = int(np.prod(base['shape'], dtype=int))
     n = draw(st.sampled_from([1, 2, 2, 3] if bsz <= 12 else [1, 2]))
     return {'kind': 'pspace', 'base': base, 'power': n,
@@ -1374,22 +1405,26 @@ def power_spaces(draw, sizes=('tiny', 'small')):
 
 
 @st.composite
-def general_spaces(draw):
+def general_spaces(draw, dtype=None, first_kinds=None):
     n = draw(st.sampled_from([2, 2, 3]))
     style = draw(st.sampled_from(['flat', 'flat', 'nested']))
-    parts = [draw(leaf_spaces(sizes=('tiny', 'small')
-                              if i else ('tiny', 'small')))
-             for i in range(n)]
+    first = draw(leaf_spaces(sizes=('tiny', 'small'), dtype=dtype,
+                             kinds=first_kinds or LEAF_KINDS_RANDOM))
+    dtype = first['dtype']
+    parts = [first] + [draw(leaf_spaces(sizes=('tiny', 'small'),
+                                        dtype=dtype))
+                       for i in range(n - 1)]
     if style == 'nested':
-        inner = draw(power_spaces(sizes=('tiny',)))
-        parts[draw(st.integers(0, n - 1))] = inner
+        inner = draw(power_spaces(sizes=('tiny',), dtype=dtype))
+        parts[draw(st.integers(1, n - 1))] = inner
     return {'kind': 'pspace', 'parts': parts, 'power': None,
             'weighting': draw(_pweight(n)), 'exponent': 2.0}
 
 
 @st.composite
-def matrix_spaces(draw):
-    base = draw(leaf_spaces(sizes=('tiny',)))
+def matrix_spaces(draw, dtype=None, kinds=None):
+    base = draw(leaf_spaces(sizes=('tiny',), dtype=dtype,
+                            kinds=kinds or LEAF_KINDS_RANDOM))
     n, m = draw(st.sampled_from([(2, 2), (2, 2), (3, 2), (2, 1), (1, 1),
                                  (3, 3), (2, 3), (1, 2)]))
     inner = {'kind': 'pspace', 'base': base, 'power': m, 'weighting': None,
